@@ -86,6 +86,32 @@ def _geometry(case):
     raise ValueError(geo)
 
 
+def _vec_functions(fv, B):
+    """The function pair of LinGaussVec.tla: forward x |-> B @ vecop(x), adjoint y |-> vecop*(B^T @ y), written with numpy calls WITHOUT axis
+    (defined for vectors; on a matrix numpy flattens)."""
+    B = np.array(B, dtype=float)
+    if fv == "roll":
+        return (lambda x: B @ np.roll(x, 1)), (lambda y: np.roll(B.T @ y, -1))
+    if fv == "flipall":
+        return (lambda x: B @ np.flip(x)), (lambda y: np.flip(B.T @ y))
+    if fv == "cumsum":
+        return (lambda x: B @ np.cumsum(x)), (lambda y: np.cumsum((B.T @ y)[::-1])[::-1])
+    raise _L().MachineryError("unknown vector operator %r" % (fv,))
+
+
+def _vec_model(case, geom):
+    """Function-backed LinearModel of a `mapvec` case (LinGaussVec.tla): the operator IS the matrix A of the configuration (checked here on
+    the basis vectors, and for the adjoint, before the library sees the functions), realised by vector-only numpy calls."""
+    import cuqi
+    L = _L()
+    A = np.array(case["A"], dtype=float)
+    m, na = A.shape
+    fwd, adj = _vec_functions(case["fv"], case["B"])
+    if not all(np.array_equal(fwd(e), A[:, j]) for j, e in enumerate(np.eye(na))) or not all(np.array_equal(adj(e), A[i, :]) for i, e in enumerate(np.eye(m))):
+        raise L.MachineryError("mapvec: the vector-only function pair %s does not realise the operator A of the configuration" % case["fv"])
+    return cuqi.model.LinearModel(fwd, adj, range_geometry=m, domain_geometry=geom if geom is not None else na)
+
+
 def build_problem(case):
     import cuqi
     L = _L()
@@ -95,7 +121,7 @@ def build_problem(case):
         E = np.array([np.asarray(geom.par2fun(e), dtype=float) for e in np.eye(case["n"])]).T
         if case["geo"] != "kl" and not np.array_equal(E, L.inp(case["E"])):
             raise L.MachineryError("par2fun of geometry %s is not the matrix E assumed by the spec (see C13)" % case["geo"])
-    model = L.linear_model(case["A"], case["mdl"], domain_geometry=geom)
+    model = _vec_model(case, geom) if case.get("fv") else L.linear_model(case["A"], case["mdl"], domain_geometry=geom)
     x = L.build_prior(case, case["n"], geometry=geom)
     y = cuqi.distribution.Gaussian(model(x), name="y", **L.gauss_kwargs(case["noise"]))
     return cuqi.problem.BayesianProblem(x, y).set_data(y=L.inp(case["y"]))
@@ -883,6 +909,45 @@ def _deviations(ctx, names):
         tlc.cleanup(res)
 
 
+def _mapvec_case(c):
+    return dict(c, kind="mapvec", mdl="func." + c["fv"])
+
+
+def run_mapvec(ctx):
+    """LinGaussVec.tla (EXTENDS LinGauss): the linear-Gaussian configurations of part map with a function pair that is defined for VECTORS only
+    (np.roll / np.flip / np.cumsum without axis).  Oracle unchanged: the exact posterior of the configuration's operator A."""
+    from cuqiverif.core import MachineryError
+    from cuqiverif import tlc
+    import os
+    wd = lambda label: os.path.join(tlc.WORK, "LinGaussVec-c15-%s-%d" % (label, os.getpid()))
+    res = ctx.tlc("LinGaussVec", cfg="LinGaussVec.dev_MatrixFromForwardOfIdentity.cfg", workers=1, timeout=600, expect_violation=True,
+                  extra_modules=["LinGauss.tla"], workdir=wd("dev"))
+    if res.ok or res.violated != "VecDirectIsMean":
+        raise MachineryError("deviation MatrixFromForwardOfIdentity: expected TLC to violate VecDirectIsMean, got %r" % (res.violated,))
+    ctx.observations.setdefault("deviations_refuted_by_tlc", {})["MatrixFromForwardOfIdentity"] = "VecDirectIsMean"
+    tlc.cleanup(res)
+    res = ctx.tlc("LinGaussVec", cfg="LinGaussVec.%s.cfg" % ctx.tier, workers=4, timeout=1500, extra_modules=["LinGauss.tla"], workdir=wd("main"))
+    ctx.model_must_hold(res, "LinGaussVec")
+    cases = [_mapvec_case(c) for c in res.cases if c.get("kind") == "mapvec"]
+    tlc.cleanup(res)
+    if not cases:
+        raise MachineryError("no cases emitted by LinGaussVec")
+    cases.sort(key=lambda c: _sig(c, ""))
+    oc = ctx.observations.setdefault("outcomes", {})
+    before = {k: oc.get(k, 0) for k in ("MAP/estimate/direct", "sample/draws")}
+    for c in cases:
+        check_map_case(ctx, c)
+    ctx.observations["mapvec_part"] = {"configurations": len(cases), "operators": sorted({c["fv"] for c in cases}),
+                                       "closed_form_MAPs": oc.get("MAP/estimate/direct", 0) - before["MAP/estimate/direct"],
+                                       "direct_draw_readoffs": oc.get("sample/draws", 0) - before["sample/draws"]}
+    if not ctx.violations and (oc.get("MAP/estimate/direct", 0) == before["MAP/estimate/direct"] or oc.get("sample/draws", 0) == before["sample/draws"]):
+        raise MachineryError("vacuous: no vector-only function pair reached the closed-form MAP / the direct sampler")
+    pick = [c for c in cases if c["fv"] == "roll" and c["covforms"] and c["geo"] == "default"][:1]
+    for c in pick:
+        ctx.sample({"case": {k: c[k] for k in ("kind", "fv", "B", "V", "A", "n", "m", "geo", "y", "noise", "prior", "mu_q", "LamInv_q")}})
+    return cases
+
+
 def run(ctx):
     from cuqiverif.core import MachineryError
     from cuqiverif import tlc
@@ -945,6 +1010,7 @@ def _run_main(ctx, msfut):
         check_map_case(ctx, c)
         if c["geo"] == "cont" and c["n"] >= 2:
             check_map_kl(ctx, c)
+    vec_cases = run_mapvec(ctx)
     # TLC's workers emit in arbitrary order: fix the order before the seed selects a third of the cases
     pcs = sorted((c for c in poly_cases if c["pd"]), key=lambda c: (c["model"], c["xs"], c["r"], c["pe"], c["px"]))
     if ctx.tier == "quick":
@@ -1009,7 +1075,7 @@ def _run_main(ctx, msfut):
     ex = [c for c in sc_cases if c["mdl"] == "function" and c["geo"] == "scale" and c["pf"] == "full"]
     ctx.sample({"case": ex[0]}, limit=9)
     ctx.sample({"case": {k: v for k, v in sorted(ng_cases, key=lambda c: (c["n"], c["which"]))[len(ng_cases) // 2].items() if not k.endswith("_q") or k == "xstar_q"}}, limit=9)
-    ctx.traces = len(map_cases) + len(pcs) + 1 + ctx.observations.get("reassign_behaviours", 0) + len(mp_cases) + len(ms_cases)
+    ctx.traces = len(map_cases) + len(vec_cases) + len(pcs) + 1 + ctx.observations.get("reassign_behaviours", 0) + len(mp_cases) + len(ms_cases)
     ctx.assumptions += ["scipy BFGS / L-BFGS-B defaults (gtol 1e-5) define the tolerance of the optimisation route (gradient <= 1e-4 x scale)",
                         "sqrtcov convention cov = S S^T (code and tests/test_distribution.py; the docstring says S^T S)",
                         "an exception of MAP/ML/sample_posterior is an accepted outcome (property: 'the call fails instead of returning another point')",
@@ -1028,7 +1094,7 @@ def replay(ctx, case):
     kind = case.get("kind")
     if kind == "model":
         return run(ctx)
-    if kind == "map":
+    if kind in ("map", "mapvec"):
         return check_map_case(ctx, case)
     if kind == "poly":
         return check_poly_case(ctx, case)
